@@ -65,6 +65,7 @@ type Run struct {
 func New(id, level string) *Run {
 	r := &Run{ID: id, Level: level, start: time.Now(), distinct: map[string]struct{}{}, Extra: map[string]interface{}{}, known: map[int]bool{}, vioSeen: map[string]bool{}, Exhaustive: true}
 	r.tier = os.Getenv("VERIF_TIER")
+	r.replay = os.Getenv("VERIF_REPLAY")
 	args := os.Args[1:]
 	for i := 0; i < len(args); i++ {
 		switch args[i] {
@@ -86,7 +87,11 @@ func New(id, level string) *Run {
 		r.tier = "quick"
 	}
 	r.seed, _ = strconv.Atoi(os.Getenv("VERIF_SEED"))
-	b, err := os.ReadFile(filepath.Join(Root, "known_findings.json"))
+	kf := filepath.Join(Root, "known_findings.json")
+	if f := os.Getenv("VERIF_KNOWN_FILE"); f != "" {
+		kf = f // development aid: try a candidate known-findings file
+	}
+	b, err := os.ReadFile(kf)
 	if err == nil {
 		var f struct {
 			Findings []Finding `json:"findings"`
